@@ -224,10 +224,26 @@ func runC12(c *Ctx) {
 			defs = append(defs, def{dl, dest})
 			blocks = append(blocks, fmt.Sprintf(rng.Pick(wrappers), "["+dl+"]: "+dest))
 		}
+		// one time in four the definitions are consecutive lines of ONE paragraph (each must still be recognised:
+		// a definition ends at its line ending, whatever follows), sometimes with a title on some of them
+		if rng.Intn(4) == 0 {
+			var para strings.Builder
+			for _, d := range defs {
+				para.WriteString("[" + d.label + "]: " + d.dest + rng.Pick([]string{"", "", " 't'", " \"one\""}) + "\n")
+			}
+			blocks = []string{para.String()}
+		}
 		useBlock := "[" + use + "]\n"
 		pos := rng.Intn(len(blocks) + 1)
 		all := append(append(append([]string{}, blocks[:pos]...), useBlock), blocks[pos:]...)
 		doc := []byte(strings.Join(all, "\n"))
+		// line-ending style: LF, CRLF or bare CR for the whole document (label matching does not depend on it)
+		switch rng.Intn(4) {
+		case 0:
+			doc = bytes.ReplaceAll(doc, []byte("\n"), []byte("\r\n"))
+		case 1:
+			doc = bytes.ReplaceAll(doc, []byte("\n"), []byte("\r"))
+		}
 		c.fam("definition-docs", "cases", 1)
 		res := parseMem(doc)
 		if res.err != "" {
